@@ -291,3 +291,46 @@ theorem byteAfterFrom_uncovered (ps : Nat) : ∀ (pages : List (Nat × ByteArray
     exact ih i v (fun p hp => h p (List.mem_cons_of_mem _ hp))
 
 end LiteFSVerif.Engine
+
+namespace LiteFSVerif.Engine
+open LiteFSVerif LiteFSVerif.BA
+
+/-- `ApplyLTXNoLock` of a deletion marker (size 0): database, journal and WAL are gone, the
+    database has no pages, the position is the marker's -/
+theorem applyLTX_tombstone (s s' : Eng) (f : LTXFile) (fatal : Bool) (h : applyLTX s f fatal = .ok s')
+    (hc : f.commit = 0) :
+    s'.dbFile = none ∧ s'.journal = none ∧ s'.wal = none ∧ s'.pageN = 0 ∧ s'.walMode = false ∧
+    s'.posTxid = f.maxTxid ∧ s'.posChk = f.post := by
+  unfold applyLTX at h
+  simp only at h
+  split at h
+  · rename_i a heq
+    injection h with h
+    subst h
+    obtain ⟨r1, hfold, h2⟩ := M_bind_ok heq
+    obtain ⟨r2, hbr, h2⟩ := M_bind_ok h2
+    obtain ⟨r3, _, h2⟩ := M_bind_ok h2
+    obtain ⟨_, _, h2⟩ := M_bind_ok h2
+    simp only [pure, Except.pure] at h2
+    injection h2 with h2
+    subst h2
+    have hn : ¬ (f.commit > 0) := by omega
+    rw [if_neg hn] at hbr
+    simp only [pure, Except.pure] at hbr
+    injection hbr with hbr
+    subst hbr
+    exact ⟨rfl, rfl, rfl, hc, rfl, rfl, rfl⟩
+  · cases h
+  · cases h
+
+end LiteFSVerif.Engine
+
+namespace LiteFSVerif.BA
+/-! concrete instances of the two file primitives (overwrite inside, write past the end with a
+    zero-filled gap, shrink, grow) -/
+example : (writeAt ⟨#[1, 2, 3]⟩ 1 ⟨#[9]⟩).data = #[1, 9, 3] := by decide
+example : (writeAt ⟨#[1]⟩ 3 ⟨#[9]⟩).data = #[1, 0, 0, 9] := by decide
+example : (truncate ⟨#[1, 2, 3]⟩ 2).data = #[1, 2] := by decide
+example : (truncate ⟨#[1]⟩ 3).data = #[1, 0, 0] := by decide
+example : Engine.byteAfterFrom 2 [(1, ⟨#[7, 8]⟩), (2, ⟨#[5, 6]⟩), (1, ⟨#[3, 4]⟩)] 1 0 = 4 := by decide
+end LiteFSVerif.BA
